@@ -23,7 +23,7 @@ from . import orchestrate as orch
 from .boot import VERIF, ensure_shim_built
 from .workload import derive_seed
 
-ENGINE_PROP = {"K": "C05", "S": "C13", "T": "C14", "P": "C15"}
+ENGINE_PROP = {"K": "C05", "S": "C13", "T": "C14", "P": "C15", "G": "C15"}
 TIER = os.environ.get("TSIM_SELFTEST_TIER", "quick")
 
 
@@ -59,7 +59,7 @@ def determinism(engines, n):
             srv = orch.Serve(e, b, watchdog_s=getattr(eng, "WATCHDOG_S", 60))
             try:
                 for i, seed in items:
-                    plan = eng.gen_plan(seed, {"prop": prop, "tier": TIER})
+                    plan = eng.gen_plan(seed, {"prop": prop, "tier": TIER, "batch_seed": 424242})
                     r1 = srv.run(json.loads(json.dumps(plan)))
                     r2 = srv.run(json.loads(json.dumps(plan)))
                     checked += 1
